@@ -107,6 +107,10 @@ def capacity(drv, extra=()):
     registered on a fresh sandbox until the first refusal); a number beyond the driver's pool of functions
     is reported as 1000 (the histories of the checks never get near it)"""
     p = vp.run([drv, "--capacity"] + list(extra[:1]), timeout=120)
+    if p.returncode < 0:
+        # registering callbacks on a fresh sandbox until the first refusal killed the executor: an observation
+        vp.exit_ok(p, "capacity probe (%s)" % os.path.basename(drv).split("-")[0])
+        return 64
     if p.returncode != 0 or not p.stdout.strip().isdigit():
         raise vp.Broken("capacity probe failed: rc=%d %s" % (p.returncode, p.stderr[-300:]))
     n = int(p.stdout.strip())
